@@ -48,16 +48,11 @@ def HonouredTo (c : Conn) (m : Msg) (k : Int) : Prop :=
   m.mtype = mSequenceReset ∧ ∃ n, seqOf m = some n ∧ newSeqOf m = some k ∧
     (isGapFill m = true → n = c.sess.nextIn ∧ n < k)
 
-/-- Reset-mode SequenceReset without a usable NewSeqNo (missing / garbled / ≤ 0): the first
-`set_seq_num` has already moved the expected number to the frame's own MsgSeqNum `k` -/
-def BrokenResetTo (m : Msg) (k : Int) : Prop :=
-  m.mtype = mSequenceReset ∧ isGapFill m = false ∧ seqOf m = some k ∧ ∀ nw, newSeqOf m = some nw → nw ≤ 0
-
 /-- how one inbound frame may move the expected number -/
 def Moves (c : Conn) (m : Msg) (k : Int) : Prop :=
   k = c.sess.nextIn ∨
   (m.mtype ≠ mSequenceReset ∧ seqOf m = some c.sess.nextIn ∧ k = c.sess.nextIn + 1) ∨
-  HonouredTo c m k ∨ BrokenResetTo m k
+  HonouredTo c m k
 
 /-- result of one `_process_message`: `k` = expected number afterwards, `d` = messages delivered -/
 def MsgOk (c : Conn) (m : Msg) (k : Int) (d : List Msg) : Prop :=
@@ -79,10 +74,9 @@ theorem msgOk_of_head {c : Conn} {m : Msg} {r : Except Exc (Option (Bool × Int)
   unfold HeadPost at hh
   refine ⟨Or.inl rfl, ?_⟩
   by_cases hm : m.mtype = mSequenceReset
-  · rcases hh.2 hm with h | h | ⟨n, nw, h1, h2, h3, h4⟩
+  · rcases hh.2 hm with h | ⟨n, nw, h1, h2, h3, h4⟩
     · exact Or.inl h
-    · exact Or.inr (Or.inr (Or.inr ⟨hm, h⟩))
-    · exact Or.inr (Or.inr (Or.inl ⟨hm, n, h1, h4 ▸ h2, h4 ▸ h3⟩))
+    · exact Or.inr (Or.inr ⟨hm, n, h1, h4 ▸ h2, h4 ▸ h3⟩)
   · exact Or.inl (hq hm)
 
 /-- the dispatch ran with `is_valid_msg_num = True` and `_finalize_message` after it -/
@@ -109,7 +103,7 @@ theorem msgOk_of_final {c : Conn} {m : Msg} {n : Int} {c1 : Conn} {e1 : List Eff
     · rcases hd with h | ⟨_, _, happ⟩
       · exact Or.inl h
       · exact absurd hm (isApp_not_session happ).1
-    · exact Or.inr (Or.inr (Or.inl ⟨hm, n, hs, hk' ▸ hnw, hk' ▸ hg⟩))
+    · exact Or.inr (Or.inr ⟨hm, n, hs, hk' ▸ hnw, hk' ▸ hg⟩)
   · have hc := hq hm
     obtain ⟨hfa, hfb⟩ := hf1 hm
     constructor
